@@ -75,7 +75,7 @@ def _shift(node, off, boff, poff):
     if isinstance(node, dict):
         out = {}
         for k, v in node.items():
-            if k == "l" and isinstance(v, int):
+            if k in ("l", "idx") and isinstance(v, int):
                 out[k] = v + off
             elif k == "promoted" and isinstance(v, int):
                 out[k] = v + poff
@@ -103,12 +103,16 @@ def _shift_term(term, off, boff, poff):
     return t
 
 
-def helper_paths(F):
+def helper_paths(F, closures_only=False):
     """crate-local functions that may be spliced: restricted visibility, not an anchor, not (mutually) recursive"""
-    anchors = anchor_paths(F)
-    cand = {p for p, f in F.fns.items()
-            if f.kind in ("Fn", "AssocFn") and f.d.get("vis") == "restricted" and p not in anchors
-            and len(f.blocks) <= MAX_BLOCKS}
+    if closures_only:
+        # closures that sa/desugar.py turned into directly called functions (stage / arm closures of rewritten combinators)
+        cand = {p for p in getattr(F, "directly_called_closures", set()) if p in F.fns and len(F.fns[p].blocks) <= MAX_BLOCKS}
+    else:
+        anchors = anchor_paths(F)
+        cand = {p for p, f in F.fns.items()
+                if f.kind in ("Fn", "AssocFn") and f.d.get("vis") == "restricted" and p not in anchors
+                and len(f.blocks) <= MAX_BLOCKS}
     # drop recursive helpers (direct or through other helpers)
     def callees(p):
         out = set()
@@ -308,17 +312,32 @@ def _thread(F, nd, call_bi, boff, nblocks, off, dest, cont):
 
 
 def normalise(F):
-    """splice helpers into every function of the fact base (in place); returns {caller: [helpers]}"""
-    helpers = helper_paths(F)
+    """splice helpers into every function of the fact base (in place); returns {caller: [helpers]}.  Phase 1 splices the
+    closures that desugaring turned into direct calls (and forgets them: they are no longer separate bodies); phase 2 finds
+    the anchors on that result and splices the remaining private helpers."""
     done = {}
-    if not helpers:
-        return done
-    for p, f in list(F.fns.items()):
-        if p in helpers:
+    for phase in (1, 2):
+        helpers = helper_paths(F, closures_only=(phase == 1))
+        if not helpers:
             continue
-        nd = inline_into(F, f.d, helpers)
-        if nd is not None:
-            F.fns[p] = type(f)(nd, F)
-            done[p] = nd["inlined"]
-    F.inlined_helpers = helpers
+        for p, f in list(F.fns.items()):
+            if p in helpers:
+                continue
+            nd = inline_into(F, f.d, helpers)
+            if nd is not None:
+                F.fns[p] = type(f)(nd, F)
+                done[p] = nd["inlined"]
+        if phase == 1:
+            # a closure whose every call became a direct, spliced call is not a body of its own any more
+            still = set()
+            for p, f in F.fns.items():
+                for _bi, t in f.calls():
+                    q = t["callee"].get("resolved") or t["callee"].get("path")
+                    if q in helpers:
+                        still.add(q)
+            for q in helpers - still:
+                F.spliced_closures = getattr(F, "spliced_closures", set()) | {q}
+                del F.fns[q]
+        else:
+            F.inlined_helpers = helpers
     return done
